@@ -109,7 +109,7 @@ def run(v) -> None:
                     z[i] = 9
             # spacings chosen so that DIFFERENT banks share (kind, largest width, number of templates) - e.g. max 4: (1,2,4) for 2 and (1,2,3) for
             # 7/4; max 8: (1,2,3,4,6) for 3/2 and (1,2,3,5,8) for 7/4 - all runs of a job share one process
-            mx, (fn, fd) = rng.choice([4, 6, 8, 12]), rng.choice([(3, 2), (2, 1), (5, 4), (7, 4), (9, 5)])
+            mx, (fn, fd) = min(n, rng.choice([4, 6, 8, 12])), rng.choice([(3, 2), (2, 1), (5, 4), (7, 4), (9, 5)])    # a template longer than the data is refused
             zs = sorted(z)
             iqr_pos = zs[(3 * n) // 4] > zs[n // 4]       # the invariance clause presupposes a non-zero scale estimate
             cases.append({"api": "MatchedFilter", "kind": "boxcar", "z": z, "mx": mx, "fn": fn, "fd": fd,
